@@ -44,6 +44,7 @@ type flowParams struct {
 	PointOnly      []string            `json:"point_only"`       // preemptive part: sweep only points of these files
 	LateOpen       []string            `json:"late_open"`        // destinations whose Open gate sorts last (stays pending by default)
 	LateCommit     bool                `json:"late_commit"`      // store commits stay in flight until nothing else can run (exploration order)
+	FailDispense   []string            `json:"fail_dispense"`    // plugins whose next dispense fails once (the first start cannot build its nodes)
 	CommitDelaysMs []int               `json:"commit_delays_ms"` // the k-th store commit takes this long (virtual ms): a slow but responding store
 	ChunkAcks      bool                `json:"chunk_acks"`       // forced destination answers (Reject) arrive one response per record
 	AckScript      []string            `json:"ack_script"`       // forced answer of the k-th ack request of every destination (input script, not a choice)
@@ -99,6 +100,9 @@ func (p flowParams) name() string {
 	}
 	if p.LatePut {
 		n += "/lateput"
+	}
+	if len(p.FailDispense) > 0 {
+		n += "/faildispense=" + strings.Join(p.FailDispense, ",")
 	}
 	if len(p.CommitDelaysMs) > 0 {
 		n += fmt.Sprintf("/slowcommits=%v", p.CommitDelaysMs)
@@ -242,6 +246,12 @@ func flowScenario(p flowParams) verifkit.Scenario {
 		Params: p,
 		Setup: func(x *verifkit.Exec) {
 			plugins := fakes.NewPlugins(x.W)
+			for _, fd := range p.FailDispense {
+				if plugins.FailDispense == nil {
+					plugins.FailDispense = map[string]int{}
+				}
+				plugins.FailDispense[fd]++
+			}
 			rec := stack.DefaultRecovery()
 			if p.Retries != 0 {
 				rec.MaxRetries = int64(p.Retries)
